@@ -104,7 +104,8 @@ def classify(name, desc, line=""):
     else:
         fn = name.split(".")[0]
     if "ensures clause" in d or "postcondition" in name:
-        return "post", "post:" + fn + "@L" + str(line) + ":" + re.sub(r"\s+", " ", d)[:120]
+        m = re.search(r"\.(\d+)$", name)
+        return "post", "post:" + fn + "#" + (m.group(1) if m else "") + ":" + re.sub(r"\s+", " ", d)[:120]
     if "requires clause" in d or "precondition" in name:
         return "pre", "pre:" + fn
     if "is assignable" in d or "assigns" in name:
@@ -492,7 +493,7 @@ def run_property(prop, tier="quick", only=None, keep=False, update_lock=False, v
         if not have_obl:
             inconclusive.append((j.name, "no named obligation or postcondition among the checked properties (vacuous harness)", r.log_tail))
         # lock-listed obligations that disappeared
-        if jl is not None:
+        if jl is not None and not update_lock:
             for key in jl:
                 if key not in agg and not key.startswith("safety:") and not key.startswith("frame:") and not key.startswith("pre:"):
                     inconclusive.append((j.name, f"locked obligation missing from this run: {key}", ""))
